@@ -39,6 +39,16 @@ class C02(InvProp):
             gen.add_rules(rng, scn, rng.irange(1, 2), kinds=('time', 'clock'), p_else=1.0, p_compound=0.2)
         if rng.chance(0.15):
             gen.add_valve_bypass(rng, scn)    # a valve with a bypass pipe that a time control closes
+        pipes_ = [l_ for l_ in scn['links'] if l_['type'] == 'pipe']
+        if pipes_ and rng.chance(0.2):
+            # a time control changes a pipe's minor-loss coefficient or roughness during the run (from zero, to zero, or between values)
+            l_ = rng.pick(pipes_)
+            attr = rng.pick(['minor_loss', 'minor_loss', 'roughness'])
+            val = rng.pick([0.0, 5.0, 40.0]) if attr == 'minor_loss' else float(rng.pick([70, 100, 140]))
+            hyd_ = scn['options']['hyd_step']
+            tch = int(rng.irange(1, max(1, scn['options']['duration'] // hyd_ - 1)) * hyd_ + rng.pick([0, 0, 53]))
+            scn['link_changes'] = [{'t': tch, 'link': l_['id'], 'attr': attr, 'value': val}]
+            scn.pop('edits', None)      # the control leaves the pipe changed: a rerun on the same model would start from the changed value
         return scn
 
     def oracle(self, scn, out, c):
